@@ -113,6 +113,9 @@ def run_params(cname, params):
         for pr in sym.explore(body, max_paths=c.max_paths, timeout_ms=c.timeout_ms, backend=c.backend):
             out["paths"] += 1
             out["solver_s"] += pr.solver_s
+            if not pr.feasible_end:
+                out["vacuous_paths"] = out.get("vacuous_paths", 0) + 1
+                continue            # obligations "proved" under an unsatisfiable path condition are not counted
             if not pr.aborted or pr.obligations:
                 out["covers"] += 1
             for a in pr.assumptions:
@@ -277,7 +280,7 @@ def check_property(prop, tier, seed, jobs=None, only=None, verbose=False):
             continue
         if r["undecided"]:
             undecided.append((r["contract"], r["params"], r["undecided"]))
-        if r["covers"] == 0 or not r["obls"]:
+        if r["covers"] == 0 or not r["obls"] or r.get("vacuous_paths"):
             if not r["undecided"]:
                 vacuous.append((r["contract"], r["params"]))
         for ob in r["obls"]:
